@@ -49,6 +49,13 @@ type c14Wire struct {
 	// payload bytes of the first header block (HEADERS + CONTINUATION*)
 	firstBlock int
 	blockState int // 0 before, 1 inside, 2 after the first header block
+	// payload bytes of the most recent header block, the number of header
+	// blocks, and the number of header blocks whose HEADERS frame carries
+	// END_STREAM without END_HEADERS (the stream ends with a block that
+	// continues in CONTINUATION frames)
+	lastBlock  int
+	blocks     int
+	endStreamC int
 	// error codes of the first RST_STREAM and the first GOAWAY (-1: none seen)
 	rstCode, goAwayCode int64
 	capType             byte
@@ -104,6 +111,16 @@ func (s *c14Wire) feed(p []byte) {
 			}
 			if FrameType(t) == FrameGoAway && l >= 8 {
 				s.capType, s.capWant = t, 8
+			}
+			switch FrameType(t) {
+			case FrameHeaders:
+				s.blocks++
+				s.lastBlock = l
+				if s.hdr[4]&byte(FlagHeadersEndStream) != 0 && s.hdr[4]&byte(FlagHeadersEndHeaders) == 0 {
+					s.endStreamC++
+				}
+			case FrameContinuation:
+				s.lastBlock += l
 			}
 			switch {
 			case s.blockState == 0 && FrameType(t) == FrameHeaders:
@@ -264,7 +281,7 @@ type c14Case struct {
 	ResDecl  bool `json:"res_len_declared"`
 	ResChunk int  `json:"res_chunk"` // bytes per Write, 0 = one Write
 	ResFlush bool `json:"res_flush_each_write"`
-	ResTrl   int  `json:"res_trailers"` // 0 none, 1/20 declared fields, -1 one field via http.TrailerPrefix
+	ResTrl   int  `json:"res_trailers"`  // 0 none, 1/20 declared fields, -1 one field via http.TrailerPrefix
 	Order    int  `json:"handler_order"` // 0 read request then respond, 1 flush response headers first
 	// Repeat > 1: the same exchange is repeated sequentially on the connection
 	// (header compression state, connection windows carry over)
@@ -273,6 +290,11 @@ type c14Case struct {
 	// Huffman-coded, so the header block grows by one byte per byte)
 	ReqPad int `json:"req_pad_field,omitempty"`
 	ResPad int `json:"res_pad_field,omitempty"`
+	// ReqTrlPad/ResTrlPad > 0: an extra trailer field X-Tq-Pad / X-Ts-Pad of
+	// that many 0xFE bytes (the trailer block grows by one byte per byte);
+	// declared like the other trailers (ResTrl < 0: set via http.TrailerPrefix)
+	ReqTrlPad int `json:"req_trailer_pad_field,omitempty"`
+	ResTrlPad int `json:"res_trailer_pad_field,omitempty"`
 	// network deviations
 	Short []c14Short `json:"short_reads,omitempty"`
 }
@@ -297,8 +319,8 @@ func c14HeaderSet(id int, side string) http.Header {
 		} else {
 			h["Cache-Control"] = []string{"no-store"}
 		}
-	case 2: // one value larger than a frame: forces CONTINUATION
-		h["X-Big"] = []string{c14Fill(20000, 7)}
+	case 2: // one value whose Huffman coding (about 6.1 bits per byte) is larger than a frame: forces CONTINUATION
+		h["X-Big"] = []string{c14Fill(24000, 7)}
 	case 3: // 50 fields
 		for i := 0; i < 50; i++ {
 			h[fmt.Sprintf("X-F%02d", i)] = []string{fmt.Sprintf("v%d-%s", i, side)}
@@ -349,11 +371,14 @@ func c14Body(n, seed int) []byte {
 	return b
 }
 
-func c14Trailers(n int, side string) http.Header {
+func c14Trailers(n, pad int, side string) http.Header {
 	if n < 0 {
 		n = -n
 	}
 	h := http.Header{}
+	if pad > 0 {
+		h["X-T"+side+"-Pad"] = []string{strings.Repeat("\xfe", pad)}
+	}
 	for i := 0; i < n; i++ {
 		k := fmt.Sprintf("X-T%s-%02d", side, i)
 		switch i % 4 {
@@ -374,7 +399,7 @@ func c14Trailers(n int, side string) http.Header {
 // (returns "" for a valid case). A field < 0 / "" means "not chosen yet" so
 // that the covering-array generator can test partial assignments.
 func c14Invalid(x *c14Case) string {
-	if x.ReqTrl > 0 && x.ReqDecl && x.ReqBody == 0 {
+	if (x.ReqTrl > 0 || x.ReqTrlPad > 0) && x.ReqDecl && x.ReqBody == 0 {
 		return "request trailers need a request body stream"
 	}
 	if x.SWin > 0 && x.ReqBody > 0 && x.ReqBody/int(x.SWin) > 4000 {
@@ -390,7 +415,7 @@ func c14Invalid(x *c14Case) string {
 		return "cost: response body written in more than 4000 Writes"
 	}
 	if x.Status == 204 || x.Status == 304 {
-		if x.ResBody > 0 || x.ResTrl != 0 || x.ResDecl {
+		if x.ResBody > 0 || x.ResTrl != 0 || x.ResTrlPad > 0 || x.ResDecl {
 			return "204/304 carry no content"
 		}
 	}
@@ -559,7 +584,20 @@ type c14CliResult struct {
 	bodyErr error
 	trailer http.Header
 	infos   []c14Info
+	stageMu sync.Mutex
 	stage   string
+}
+
+func (r *c14CliResult) setStage(s string) {
+	r.stageMu.Lock()
+	r.stage = s
+	r.stageMu.Unlock()
+}
+
+func (r *c14CliResult) getStage() string {
+	r.stageMu.Lock()
+	defer r.stageMu.Unlock()
+	return r.stage
 }
 
 const c14Link = "</style.css>; rel=preload; as=style"
@@ -592,10 +630,10 @@ func c14Exchange(vw *vx.W, x *c14Case) (st c14Stats, completed bool) {
 
 	reps := max(1, x.Repeat)
 	reqHdr := c14HeaderSet(x.ReqHdr, "q")
-	reqTrl := c14Trailers(x.ReqTrl, "q")
+	reqTrl := c14Trailers(x.ReqTrl, x.ReqTrlPad, "q")
 	reqBody := c14Body(x.ReqBody, 1)
 	resHdr := c14HeaderSet(x.ResHdr, "s")
-	resTrl := c14Trailers(x.ResTrl, "s")
+	resTrl := c14Trailers(x.ResTrl, x.ResTrlPad, "s")
 	resBody := c14Body(x.ResBody, 2)
 	if x.ReqPad > 0 {
 		reqHdr["X-Pad"] = []string{strings.Repeat("\xfe", x.ReqPad)}
@@ -626,7 +664,7 @@ func c14Exchange(vw *vx.W, x *c14Case) (st c14Stats, completed bool) {
 		if x.ResDecl {
 			h["Content-Length"] = []string{strconv.Itoa(len(resBody))}
 		}
-		if x.ResTrl > 0 {
+		if x.ResTrl >= 0 && len(resTrl) > 0 {
 			keys := make([]string, 0, len(resTrl))
 			for k := range resTrl {
 				keys = append(keys, k)
@@ -758,7 +796,7 @@ func c14Exchange(vw *vx.W, x *c14Case) (st c14Stats, completed bool) {
 		for k, vv := range reqHdr {
 			req.Header[k] = append([]string(nil), vv...)
 		}
-		if x.ReqTrl > 0 {
+		if len(reqTrl) > 0 {
 			req.Trailer = http.Header{}
 			for k := range reqTrl {
 				req.Trailer[k] = nil
@@ -769,21 +807,23 @@ func c14Exchange(vw *vx.W, x *c14Case) (st c14Stats, completed bool) {
 				}
 			}
 		}
-		cr1.stage = "roundtrip"
+		cr1.setStage("roundtrip")
 		cr1.res, cr1.err = cc.RoundTrip(req)
 		if cr1.err != nil {
 			return
 		}
-		cr1.stage = "read-body"
+		cr1.setStage("read-body")
 		cr1.body, cr1.bodyErr = io.ReadAll(cr1.res.Body)
 		cr1.trailer = cr1.res.Trailer.Clone()
-		cr1.stage = "close-body"
+		cr1.setStage("close-body")
 		cr1.res.Body.Close()
-		cr1.stage = "done"
+		cr1.setStage("done")
 	}
 	// requests are sequential: the next one starts when the previous exchange
 	// is complete and both endpoints are quiescent
-	hung := false
+	// hung: the client made no progress for c14Hang of fake time; hungStage is
+	// where it was stuck at that moment (the tear-down below unblocks it)
+	hung, hungStage := false, ""
 	var cliDone chan struct{}
 	for i := range results {
 		done := make(chan struct{})
@@ -799,9 +839,9 @@ func c14Exchange(vw *vx.W, x *c14Case) (st c14Stats, completed bool) {
 		select {
 		case <-cliDone:
 		case <-time.After(c14Hang):
-			hung = true
+			hung, hungStage = true, results[i].getStage()
 		}
-		if hung || results[i].err != nil {
+		if hung || results[i].err != nil || results[i].bodyErr != nil {
 			break
 		}
 		// let the handler return and the server finish its bookkeeping
@@ -846,23 +886,29 @@ func c14Exchange(vw *vx.W, x *c14Case) (st c14Stats, completed bool) {
 		fail := func(sig, format string, a ...any) {
 			w.Failf(sig+which, fmt.Sprintf("request #%d: ", i+1)+format, a...)
 		}
-		if hung && cr1.stage != "done" {
+		if last := i+1 == len(results) || !results[i+1].started; hung && last && hungStage != "done" {
 			nb := 0
 			if i < len(seenAll) {
 				nb = len(seenAll[i].body)
 			}
-			fail("C14/liveness/exchange-hangs:"+cr1.stage, "client stuck in stage %q for %v of fake time; handler calls=%d, request bytes seen by handler=%d; %s", cr1.stage, c14Hang, len(seenAll), nb, ctxt())
+			fail("C14/liveness/exchange-hangs:"+hungStage, "client stuck in stage %q for %v of fake time; handler calls=%d, request bytes seen by handler=%d; %s", hungStage, c14Hang, len(seenAll), nb, ctxt())
 			return
 		}
 		if cr1.err != nil {
 			fail("C14/client/roundtrip-error:"+c14ErrClass(cr1.err), "RoundTrip: %v; %s", cr1.err, ctxt())
 			return
 		}
-		if len(seenAll) != reps {
-			fail("C14/request/handler-calls", "handler ran %d times for %d requests; %s", len(seenAll), reps, ctxt())
+		if i >= len(seenAll) {
+			fail("C14/request/handler-calls", "the client got a response although the handler ran %d times only; %s", len(seenAll), ctxt())
 			return
 		}
 		c14Compare(fail, x, seenAll[i], cr1, reqHdr, reqTrl, reqBody, resHdr, resTrl, resBody, ctxt)
+		if vw.Failed() {
+			return
+		}
+	}
+	if len(seenAll) != reps {
+		w.Failf("C14/request/handler-calls", "handler ran %d times for %d requests; %s", len(seenAll), reps, ctxt())
 	}
 	completed = !vw.Failed()
 	return
@@ -908,9 +954,9 @@ func c14Compare(fail func(sig, format string, a ...any), x *c14Case, seen *c14Se
 		fail("C14/request/body-bytes", "handler read %d body bytes, sent %d; first difference at %d; %s", len(seen.body), len(reqBody), c14FirstDiff(seen.body, reqBody), ctxt())
 	}
 	if d := c14DiffHeader(c14Canon(reqTrl), c14DropNil(seen.trailer)); d != "" {
-		fail("C14/request/trailers", "request trailers differ (%d sent): %s", x.ReqTrl, d)
+		fail("C14/request/trailers", "request trailers differ (%d sent): %s", len(reqTrl), d)
 	}
-	if x.ReqTrl > 0 && len(seen.preTrailer) != len(reqTrl) {
+	if len(reqTrl) > 0 && len(seen.preTrailer) != len(reqTrl) {
 		fail("C14/request/trailer-announcement", "handler saw %d announced trailer keys before reading the body, client declared %d", len(seen.preTrailer), len(reqTrl))
 	}
 
@@ -955,7 +1001,7 @@ func c14Compare(fail func(sig, format string, a ...any), x *c14Case, seen *c14Se
 		wantTrl = http.Header{}
 	}
 	if d := c14DiffHeader(wantTrl, c14DropNil(cr1.trailer)); d != "" {
-		fail("C14/response/trailers", "response trailers differ (mode %d): %s; %s", x.ResTrl, d, ctxt())
+		fail("C14/response/trailers", "response trailers differ (mode %d, pad field %d): %s; %s", x.ResTrl, x.ResTrlPad, d, ctxt())
 	}
 	if x.Info {
 		if len(cr1.infos) != 1 || cr1.infos[0].code != 103 || strings.Join(cr1.infos[0].h["Link"], "|") != c14Link {
